@@ -20,10 +20,12 @@ PROPS = {
         mc=[dict(tla="Yoda_MC.tla", cfg="Yoda_MC.cfg", tier="quick", timeout=300),
             dict(tla="Yoda_MC.tla", cfg="Yoda_MC_fail.cfg", tier="quick", timeout=300),
             dict(tla="Yoda_MC.tla", cfg="Yoda_MC_tx.cfg", tier="quick", timeout=300),
+            dict(tla="Yoda_MC.tla", cfg="Yoda_MC_wide.cfg", tier="thorough", timeout=1500),
             dict(tla="Yoda_MC.tla", cfg="Yoda_MC_deep.cfg", tier="thorough", timeout=1500),
+            dict(tla="Yoda_MC.tla", cfg="Yoda_MC_tx_fail.cfg", tier="thorough", timeout=1500),
             dict(tla="Yoda_MC.tla", cfg="Yoda_MC_live.cfg", tier="thorough", timeout=1500)],
-        gen=dict(tla="Yoda_Gen.tla", cfg="Yoda_Gen.cfg", depth=70, num=dict(quick=250, thorough=4000), timeout=900),
-        drive=dict(family="yoda", nrand=dict(quick=250, thorough=5000), timeout=3000),
+        gen=dict(tla="Yoda_Gen.tla", cfg="Yoda_Gen.cfg", depth=70, num=dict(quick=250, thorough=3000), timeout=900),
+        drive=dict(family="yoda", nrand=dict(quick=250, thorough=3000), timeout=3000),
         trace=dict(tla="Yoda_Trace.tla", cfg="Yoda_Trace_C19.cfg", steps_per_line=3),
         rule="scenarios = TLC -simulate walks of Yoda.tla (random scenario: 1..3 requests, 1..4 raw requests with "
              "repeated data sources, executable lengths {1,5,24,25,31,32,33,1000} cached or not, RPC failure budgets, "
